@@ -191,7 +191,7 @@ var l1MaccPerms = map[string][]string{
 // commits block 1; on a non-empty DB it is a restart (gen is ignored).
 func NewL1(db dbm.DB, gen *L1Genesis) *L1 {
 	enc := MakeEncoding()
-	n := &L1{DB: db, Enc: enc, Fault: &FaultState{}}
+	n := &L1{DB: db, Enc: enc, Fault: &FaultState{Record: true}}
 	app := baseapp.NewBaseApp("sim-l1", log.NewNopLogger(), db, enc.TxConfig.TxDecoder(), baseapp.SetChainID(L1ChainID))
 	app.SetInterfaceRegistry(enc.Registry)
 	n.App = app
